@@ -452,6 +452,33 @@ theorem h1_error_reply_wellformed (canWrite started : Bool) (code : Nat) (m b : 
         have hd := errorStatus_domain code s hs
         exact ⟨s, rfl, hd.1, hd.2, trivial, page_wellformed s m hd, trivial⟩
 
+/-- **C12 (no page into a started or upgraded exchange).** An error page is written only when NO response head has
+    gone out to this client yet: never after a `101 Switching Protocols` (the connection speaks another protocol),
+    never after a final head (2xx–5xx, with or without part of its body) — there the error path only closes — and,
+    as the code stands, not after an interim head either.  When it is written, the client's wire is exactly that one
+    complete, correctly framed response. -/
+theorem error_page_only_before_any_head (canWrite : Bool) (relayed : Option Nat) (code : Nat) (m b : Bytes)
+    (h : (h1ErrorReplyAfter canWrite relayed code m).1 = some b) :
+    relayed = none ∧ ∃ s, errorStatus code = some s ∧ clientWire [] canWrite relayed code m = b ∧
+      refParse b = some (expected s (formatError s m)) := by
+  unfold h1ErrorReplyAfter at h
+  obtain ⟨s, hs, _, _, hst, hp, _⟩ := h1_error_reply_wellformed canWrite relayed.isSome code m b h
+  refine ⟨by cases relayed <;> simp_all, s, hs, ?_, hp⟩
+  simp [clientWire, h1ErrorReplyAfter, h]
+
+/-- after a `101` or a final head the client's wire is what was relayed and nothing else, whatever the error -/
+theorem wire_unchanged_after_101_or_final (relayedBytes : Bytes) (canWrite : Bool) (st code : Nat) (m : Bytes)
+    (_ : st = 101 ∨ 200 ≤ st) : clientWire relayedBytes canWrite (some st) code m = relayedBytes := by
+  have : (h1ErrorReplyAfter canWrite (some st) code m).1 = none := by
+    cases hr : (h1ErrorReplyAfter canWrite (some st) code m).1 with
+    | none => rfl
+    | some b => have := (error_page_only_before_any_head canWrite (some st) code m b hr).1; simp at this
+  simp [clientWire, this]
+
+example : (h1ErrorReplyAfter true none 2 [0x3c]).1.isSome = true ∧ (h1ErrorReplyAfter true (some 101) 2 [0x3c]) = (none, true) ∧
+          (h1ErrorReplyAfter true (some 200) 2 [0x3c]) = (none, true) ∧ (h1ErrorReplyAfter true (some 100) 2 [0x3c]) = (none, true) := by
+  decide +kernel
+
 -- a code without status (KILL = 7) closes without a page; a started response is never written into
 example : h1ErrorReply true false 7 [0x3c] = (none, true) ∧ h1ErrorReply true true 1 [0x3c] = (none, true) ∧
           h1ErrorReply false false 1 [0x3c] = (none, false) ∧ (h1ErrorReply true false 3 [0x3c]).1.isSome = true := by
